@@ -3,6 +3,7 @@
   Helper lemmas live in WS.Lemmas.Url.
 -/
 import WS.Lemmas.Url
+import WS.Model.Proxy
 namespace WS.Props.C18
 open WS WS.Py WS.Net
 open WS.Model.OpenSocket
@@ -61,7 +62,7 @@ theorem C18_reject (v6ok : Str → Bool) (u : Str)
     simp only [Bool.not_eq_true', Bool.or_eq_false_iff, Spec.Url.isWs, Spec.Url.isWss] at hsch
     by_cases hp : ("//".toList).isPrefixOf ((u.dropWhile (· != ':')).drop 1) = true
     · match hr : (u.dropWhile (· != ':')).drop 1, hp with
-      | [], hp => simp [List.isPrefixOf] at hp
+      | [], hp => simp at hp
       | [c], hp => simp [List.isPrefixOf] at hp
       | c :: d :: body, hp =>
         simp at hp
@@ -97,7 +98,7 @@ theorem C18_total (v6ok : Str → Bool) (u : Str) (e : Exn)
           · exact parseHier_error _ _ _ _ _ _ h
           · cases h; rfl
       match hr : (u.dropWhile (· != ':')).drop 1, hp with
-      | [], hp => simp [List.isPrefixOf] at hp
+      | [], hp => simp at hp
       | [c], hp => simp [List.isPrefixOf] at hp
       | c :: d :: body, hp =>
         simp at hp
@@ -109,6 +110,35 @@ theorem C18_total (v6ok : Str → Bool) (u : Str) (e : Exn)
     have hcon : u.contains ':' = false := by simpa using hc
     simp only [hcon, Bool.not_false, if_true] at h
     cases h; rfl
+
+/-- **C18_no_network** — when `parse_url` refuses the URL, `connect()` ends with that
+    ValueError and the trace of resolver and socket activity is empty.  With `C18_reject`:
+    no ":" / foreign scheme / no "//" / no host ⇒ ValueError before any network activity. -/
+theorem C18_no_network (v6ok : Str → Bool) (url : Str) (timeout : Nat) (sockopt : List String)
+    (p : Model.Proxy.ProxyInfo) (env : Model.NoProxy.Env) (w : Model.Proxy.World) (e : Exn)
+    (h : Model.Url.parseUrl v6ok url = .error e) :
+    Model.Proxy.connect v6ok url timeout sockopt p env w = (.error .valueError, []) := by
+  have := C18_total v6ok url e h
+  subst this
+  unfold Model.Proxy.connect
+  rw [h]
+
+/-- **C18_target** — with no proxy in play, the name and port handed to the resolver are the
+    parsed URL's host and port, TLS is requested exactly for wss and with that host name,
+    and the tuple handed to the handshake is the parsed (host, port, resource). -/
+theorem C18_target (v6ok : Str → Bool) (url : Str) (timeout : Nat) (sockopt : List String)
+    (p : Model.Proxy.ProxyInfo) (env : Model.NoProxy.Env) (w : Model.Proxy.World) (t : Target)
+    (o : Outcome) (outs : List Outcome) (i : Nat) (evs : List Ev)
+    (hp : Model.Url.parseUrl v6ok url = .ok t)
+    (hc : Model.Proxy.getProxyInfo v6ok t.host t.secure p env = .ok Model.Proxy.direct)
+    (ha : w.addrs = some (o :: outs))
+    (hd : openSocket timeout sockopt (o :: outs) = (.ok i, evs)) :
+    Model.Proxy.connect v6ok url timeout sockopt p env w =
+      (.ok (i, t), Model.Proxy.CEv.resolve t.host t.port :: evs.map .sock
+        ++ (if t.secure then [.tls i t.host] else [])) := by
+  unfold Model.Proxy.connect
+  simp only [hp, hc, ha, hd]
+  cases hs : t.secure <;> simp [Model.Proxy.addrTarget, Model.Proxy.direct]
 
 /-- non-vacuity: the grammar accepts the usual forms, refuses the malformed ones, and the
     `;params` case keeps its parameters (F14 repaired). -/
